@@ -757,6 +757,10 @@ fn convert_regex_domain_rule(hostname: &str) -> Option<String> {
     let s = hostname.as_bytes();
     let mut index = 0;
     loop {
+        // a hostname ending in `.` leaves nothing after the separator
+        if index == s.len() {
+            return None;
+        }
         if s[index] == b'/' {
             let mut found = false;
             for i in index + 1..s.len() {
